@@ -48,6 +48,30 @@ let show (r : 'a res) (s : st) =
     else Printf.sprintf "b%d-" b in
   Printf.printf "%s | %s | %s\n" out evs (String.concat " " (Stdlib.List.init nb blk))
 
+(* tree cases: blocks are named (a = argument item, o = the old leaf, n<i> = i-th node built aside); only non-raw cells are shown *)
+let sname = ref false
+let tname b = if !sname && b = 2 then "s" else if b = 0 then "a" else if b = 1 then "o" else Printf.sprintf "n%d" (b - 2)
+let tloc (l : loc) = Printf.sprintf "%s.%d" (tname (n2i (fst l))) (n2i (snd l))
+let tsev = function
+  | EvA (b, _) -> Printf.sprintf "A%s" (tname (n2i b))
+  | EvD b -> Printf.sprintf "D%s" (tname (n2i b))
+  | EvC (s, d) -> Printf.sprintf "C%s>%s" (tloc s) (tloc d)
+  | EvM (s, d) -> Printf.sprintf "M%s>%s" (tloc s) (tloc d)
+  | EvX l -> Printf.sprintf "X%s" (tloc l)
+  | EvF -> "F"
+let show_tree (r : 'a res) (s : st) =
+  let h = s.hp in
+  let out = match r with Ok _ -> "Ok" | Exn -> "Exn" | Stuck -> "Stuck" in
+  let evs = String.concat " " (Stdlib.List.rev_map tsev s.trace) in
+  let nb = n2i h.next in
+  let blk b =
+    if h.alive (i2n b) then begin
+      let n = n2i (h.bsize (i2n b)) in
+      let cells = Stdlib.List.filter (fun x -> x <> "") (Stdlib.List.init n (fun i -> match h.mem (loc b i) with Raw -> "" | c -> Printf.sprintf "%d:%s" i (scell c))) in
+      Printf.sprintf "%s[%s]" (tname b) (String.concat " " cells) end
+    else Printf.sprintf "%s-" (tname b) in
+  Printf.printf "%s | %s | %s\n" out evs (String.concat " " (Stdlib.List.init (if !sname then 2 else nb) blk))
+
 let cat_of = function "N" -> NTM | "C" -> CPY | "T" -> THM | _ -> failwith "cat"
 let at b = fun j -> (i2n b, j)
 
@@ -111,5 +135,22 @@ let () = iter_lines (fun line ->
       let (r, s') = (if mv = "m" then KeyValue.kv_create_move (cat_of ck) (loc 0 0) (loc 2 0) (ObjMgr.creator_copy (loc 1 0)) (loc 3 0)
                      else KeyValue.kv_create_copy (loc 0 0) (loc 2 0) (ObjMgr.creator_copy (loc 1 0)) (loc 3 0)) s in
       show r s'
+    | ["treeins"; c; n; k; pos] ->
+      let n = int_of_string n and k = int_of_string k and pos = int_of_string pos in
+      let leaf = Stdlib.List.init n (fun j -> Live (i2n (10 * (j + 1)))) in
+      let s = mk_state [[Live (i2n (10 * pos + 5))]; leaf] k in
+      let p = if n < 4 then Relocator.grow_plan (i2n 1) (i2n n) (i2n pos) else Relocator.split_root_plan (i2n 1) (i2n n) (i2n pos) in
+      let (r, s') = Relocator.run_plan (cat_of c) p (loc 0 0) [i2n 1] s in
+      show_tree r s'
+    | ["noderemove"; _; n; k; index] ->
+      let n = int_of_string n and k = int_of_string k and index = int_of_string index in
+      let cap = if n <= 2 then 2 else 4 in
+      let leaf = Stdlib.List.init cap (fun j -> if j < n then Live (i2n (10 * (j + 1))) else Raw) in
+      let s = mk_state [[Raw]; leaf; [Raw]] k in
+      let shift = n - 1 - index in
+      let last = loc 1 (index + shift) in
+      let remover = Effects.bind (Effects.copy_construct last (loc 0 0)) (fun _ -> Effects.destroy last) in
+      let (r, s') = Tree.node_remove (at 1) (loc 2 0) (i2n index) (i2n shift) remover s in
+      sname := true; show_tree r s'; sname := false
     | _ -> print_endline "?"
   with e -> print_endline ("model-driver-error " ^ Printexc.to_string e))
